@@ -246,6 +246,7 @@ class Interp:
         self.valuation = list(valuation or [])     # [(Form, number)]: assumed numeric value of a sub-term (e.g. a length)
         self.cmp_points: set = set()               # numeric values met in decided order/equality comparisons
         self.fit_log: list = []                    # (call node, args, kwargs, depth) of every estimator.fit(...) met, in order
+        self.views: dict = {}                      # (function, local name) -> (viewed Name node, start, stop): v = a[lo:hi]
         self._gbusy: set = set()
         self.keep_astype = False                   # keep x.astype(t) visible in value forms instead of treating it as the identity
         self.unroll_literal_loops = True           # execute `for row in <literal table>` row by row instead of abstracting the loop
@@ -450,6 +451,8 @@ class Interp:
 
     def s_Return(self, s, st, fi, depth):
         v = self.eval(s.value, st, fi, depth) if s.value is not None else NONE
+        if not st.live:
+            return     # the returned expression itself never completes (a callee that raises on every path)
         self._stack[-1][1].append(Outcome("return", v, list(st.conds), s))
         st.live = False
 
@@ -487,6 +490,16 @@ class Interp:
 
     def assign(self, t, v, st, fi, depth, stmt, aug=False):
         if isinstance(t, ast.Name):
+            self.views.pop((id(fi), t.id), None)
+            val_node = getattr(stmt, "value", None)
+            if isinstance(stmt, ast.Assign) and len(stmt.targets) == 1 and stmt.targets[0] is t and isinstance(val_node, ast.Subscript) \
+                    and isinstance(val_node.value, ast.Name) and isinstance(val_node.slice, ast.Slice) and val_node.slice.step is None \
+                    and isinstance(st.env.get(val_node.value.id), Form):
+                # `v = a[lo:hi]` is a view: element stores through v land in a (numpy basic slicing)
+                lo = self.eval(val_node.slice.lower, st, fi, depth) if val_node.slice.lower is not None else Form.num(0)
+                hi = self.eval(val_node.slice.upper, st, fi, depth) if val_node.slice.upper is not None else None
+                if isinstance(lo, Form):
+                    self.views[(id(fi), t.id)] = (val_node.value, lo, hi)
             st.env[t.id] = v
             if depth == 0 or True:
                 self.assign_log.append((fi, stmt, t.id, v, list(st.conds), depth))
@@ -500,6 +513,20 @@ class Interp:
             if isinstance(base, ObjV):
                 base.fields[t.attr] = v
         elif isinstance(t, ast.Subscript):
+            if isinstance(t.value, ast.Name) and (id(fi), t.value.id) in self.views:
+                # store through a view: rewritten as the store into the viewed array
+                bnode, lo, hi = self.views[(id(fi), t.value.id)]
+                idx0 = self.eval_index(t.slice, st, fi, depth)
+                new_idx = None
+                if _full_slice(idx0):
+                    new_idx = SliceV(lo, hi if hi is not None else NONE, NONE)
+                elif isinstance(idx0, Form):
+                    new_idx = lo + idx0
+                if new_idx is not None and isinstance(st.env.get(bnode.id), Form):
+                    base = st.env[bnode.id]
+                    self.store_log.append((fi, stmt, ("idx", base, new_idx, bnode), v, list(st.conds), depth))
+                    st.env[bnode.id] = Form.atom(("fn", "setitem", (as_value(base), new_idx, v), ()))
+                    return
             base = self.eval(t.value, st, fi, depth)
             idx = self.eval_index(t.slice, st, fi, depth)
             self.store_log.append((fi, stmt, ("idx", base, idx, t.value), v, list(st.conds), depth))
@@ -702,6 +729,7 @@ class Interp:
 
     def s_While(self, s, st, fi, depth):
         names = self._assigned_names(s.body) | self._assigned_names(s.orelse)
+        names |= {r for r in self._mutated_roots(s.body) if isinstance(st.env.get(r), Form)}   # arrays written element-wise in the loop
         pre = fork_env(st.env)
         self._havoc(names, st, s, "")
         head_env = fork_env(st.env)
@@ -832,6 +860,7 @@ class Interp:
                 st.env, st.facts, st.conds, st.live = res.env, res.facts, res.conds, res.live
                 return
         names = self._assigned_names(s.body) | self._assigned_names([ast.Assign(targets=[s.target], value=ast.Constant(value=0), lineno=s.lineno)])
+        names |= {r for r in self._mutated_roots(s.body) if isinstance(st.env.get(r), Form)}   # arrays written element-wise in the loop
         pre = fork_env(st.env)
         self._havoc(names, st, s, "")
         head_env = fork_env(st.env)
@@ -1583,9 +1612,11 @@ class Interp:
             ast.IsNot: "isnot", ast.In: "in", ast.NotIn: "notin"}
 
     def e_Compare(self, n, st, fi, depth):
+        marks = self._log_marks()
         t = self.truth(n, st, fi, depth) if len(n.ops) == 1 else None
         if t is not None:
             return Const(t)
+        self._log_rewind(marks)    # the operands are evaluated again below: keep one record per call
         left = self.eval(n.left, st, fi, depth)
         parts = []
         for op, c in zip(n.ops, n.comparators):
@@ -2483,4 +2514,15 @@ def iter_element(it):
         a = it.single_atom()
         if a is not None and a[0] == "fn" and a[1] == "zip":
             return TupleV([iter_element(x) for x in a[2]])
+        if a is None and len(it.terms) == 1:
+            # an element of  c * s1 * ... * X  (scalars times one sequence) is  c * s1 * ... * element(X)
+            (mono, coef), = it.terms.items()
+            seqs = [(at, e) for at, e in mono if at[0] in ("idx", "phi") or (at[0] == "fn" and at[1] in ("where", "arange", "listcomp", "nonzero", "sort", "unique"))]
+            others = [(at, e) for at, e in mono if (at, e) not in seqs]
+            if len(seqs) == 1 and seqs[0][1] == 1 and all(at[0] in ("sym", "num", "c") for at, _e in others):
+                rest = Form({tuple(sorted(others, key=lambda ae: repr(ae))): coef}) if others else Form({(): coef})
+                try:
+                    return (it / Form.atom(seqs[0][0])) * iter_element(Form.atom(seqs[0][0]))
+                except Exception:
+                    pass
     return mk_fn("elem", [as_value(it)])
